@@ -16,6 +16,8 @@ func register(id string, f PropFunc) {
 	registry[id] = func(p *model.Prog, r *report.Result) {
 		f(p, r)
 		w6Counterpart(p, r, id)
+		w7DeadLocal(p, r, id)
+		w7NilOnErr(p, r, id)
 	}
 }
 
